@@ -422,4 +422,192 @@ theorem save_root_record (cfg : Cfg) (n n' : Node) (db db' : NodeDB) (r : Bytes)
       simp
     · simp at hw
 
+/-! ### a pending entry survives every request except its own Commit / Rollback and a restart -/
+
+theorem cacheTree_trees (s : Store) (r : Bytes) (t : Tree) : (s.cacheTree r t).trees = s.trees := by
+  cases t <;> rfl
+
+theorem setKV_trees (H : Bytes → Bytes) (s : Store) (p : Bytes) (bh : Nat) (kvs : List (Bytes × Bytes)) :
+    (s.setKV H p bh kvs).2.trees = s.trees := by
+  unfold Store.setKV
+  obtain ⟨_, _, f3⟩ := loadRoot_frame s p
+  generalize s.loadRoot p = lr at f3 ⊢
+  obtain ⟨res, s'⟩ := lr
+  simp only at f3
+  cases res with
+  | notfound => exact f3
+  | panic => exact f3
+  | ok t =>
+    simp only
+    cases Tree.setMany t kvs with
+    | none => exact f3
+    | some t' =>
+      simp only
+      cases saveTree H s'.cfg bh t' s'.db with
+      | notfound => exact f3
+      | panic => exact f3
+      | ok x => obtain ⟨root, t'', db'⟩ := x; simpa [cacheTree_trees] using f3
+
+theorem get_trees (s : Store) (r : Bytes) (ks : List Bytes) : (s.get r ks).2.trees = s.trees := by
+  unfold Store.get Store.treeAt
+  split
+  · rename_i heq
+    split at heq
+    · cases heq; rfl
+    · have := loadRoot_frame s r; rw [heq] at this; exact this.2.2
+  · rename_i heq
+    split at heq
+    · cases heq
+    · have := loadRoot_frame s r; rw [heq] at this; exact this.2.2
+  · rename_i heq
+    split at heq
+    · cases heq
+    · have := loadRoot_frame s r; rw [heq] at this; exact this.2.2
+
+theorem lookupTree_filter (ts : List (Bytes × Option Node)) (r' r0 : Bytes) :
+    lookupTree (ts.filter (fun p => !(p.1 == r'))) r0 = if r0 = r' then none else lookupTree ts r0 := by
+  induction ts with
+  | nil => simp [lookupTree]
+  | cons a rest ih =>
+    by_cases ha : a.1 = r'
+    · have : (!(a.1 == r')) = false := by simp [ha]
+      rw [List.filter_cons_of_neg (by simp [ha]), ih]
+      by_cases h0 : r0 = r'
+      · simp [h0]
+      · have : (a.1 == r0) = false := by simp [ha]; exact fun e => h0 e.symm
+        simp [h0, lookupTree, List.find?_cons, this]
+    · rw [List.filter_cons_of_pos (by simp [ha])]
+      by_cases h0 : r0 = r'
+      · subst h0
+        have e : (a.1 == r0) = false := by simpa using ha
+        simp only [lookupTree, List.find?_cons, e] at ih ⊢
+        simpa using ih
+      · simp only [h0, if_false] at ih ⊢
+        simp only [lookupTree, List.find?_cons] at ih ⊢
+        cases (a.1 == r0) <;> simp_all
+
+/-- the requests that leave the pending entry under `r` alone: everything except `Commit r`, `Rollback r` and a
+restart (a MemSet that computes the root `r` again replaces the entry by another tree with that root). -/
+def Label.keeps (r : Bytes) : Label → Bool
+  | .commit r' => r' != r
+  | .rollback r' => r' != r
+  | .restart => false
+  | _ => true
+
+theorem pendOK_filter (s : Store) (hp : PendOK s) (r' : Bytes) (s' : Store)
+    (ht : s'.trees = s.trees.filter (fun p => !(p.1 == r'))) : PendOK s' := by
+  intro r0 n h
+  rw [ht, lookupTree_filter] at h
+  split at h
+  · cases h
+  · exact hp r0 n h
+
+theorem step_keeps_pending (H : Bytes → Bytes) (s : Store) (hp : PendOK s) (r : Bytes) (l : Label)
+    (hl : l.keeps r = true) :
+    PendOK (step H s l).1 ∧
+      ∀ n, lookupTree s.trees r = some (some n) → ∃ n', lookupTree (step H s l).1.trees r = some (some n') := by
+  cases l with
+  | memSet p bh kvs =>
+    obtain ⟨a, b⟩ := memSet_pending H s hp p bh kvs
+    exact ⟨a, fun n h => b r n h⟩
+  | set p bh kvs =>
+    have e := setKV_trees H s p bh kvs
+    refine ⟨fun r0 n h => hp r0 n (by simpa [step, e] using h), fun n h => ⟨n, by simpa [step, e] using h⟩⟩
+  | get r' ks =>
+    have e := get_trees s r' ks
+    refine ⟨fun r0 n h => hp r0 n (by simpa [step, e] using h), fun n h => ⟨n, by simpa [step, e] using h⟩⟩
+  | restart => simp [Label.keeps] at hl
+  | rollback r' =>
+    have hne : r ≠ r' := by simp [Label.keeps] at hl; exact fun e => hl e.symm
+    simp only [step, rollback]
+    split
+    · exact ⟨hp, fun n h => ⟨n, h⟩⟩
+    · refine ⟨pendOK_filter s hp r' _ rfl, fun n h => ⟨n, ?_⟩⟩
+      simp only [lookupTree_filter, hne, if_false]; exact h
+  | commit r' =>
+    have hne : r ≠ r' := by simp [Label.keeps] at hl; exact fun e => hl e.symm
+    simp only [step, commit]
+    split
+    · exact ⟨hp, fun n h => ⟨n, h⟩⟩
+    · refine ⟨pendOK_filter s hp r' _ rfl, fun n h => ⟨n, ?_⟩⟩
+      simp only [lookupTree_filter, hne, if_false]; exact h
+    · split
+      · exact ⟨hp, fun n h => ⟨n, h⟩⟩
+      · refine ⟨pendOK_filter s hp r' _ (by simp [cacheTree_trees]), fun n h => ⟨n, ?_⟩⟩
+        simp only [cacheTree_trees, lookupTree_filter, hne, if_false]; exact h
+
+theorem run_keeps_pending (H : Bytes → Bytes) (r : Bytes) (ls : List Label) (hl : ∀ l ∈ ls, l.keeps r = true) :
+    ∀ s, PendOK s → PendOK (run H s ls) ∧
+      ∀ n, lookupTree s.trees r = some (some n) → ∃ n', lookupTree (run H s ls).trees r = some (some n') := by
+  induction ls with
+  | nil => intro s hp; exact ⟨hp, fun n h => ⟨n, h⟩⟩
+  | cons l rest ih =>
+    intro s hp
+    obtain ⟨a, b⟩ := step_keeps_pending H s hp r l (hl l (by simp))
+    obtain ⟨c, d⟩ := ih (fun x hx => hl x (by simp [hx])) _ a
+    refine ⟨c, ?_⟩
+    intro n h
+    obtain ⟨n1, h1⟩ := b n h
+    exact d n1 h1
+
+/-! ### reads at a root without a pending tree are a function of the database -/
+
+/-- what `Store.Get` answers from the database alone. -/
+def dbRead (db : NodeDB) (r : Bytes) (ks : List Bytes) : Res (List (Option Bytes)) :=
+  match loadTree db r with
+  | .ok t => .ok (ks.map (fun k => (Tree.get t k).2))
+  | .notfound => .ok (ks.map (fun _ => none))
+  | .panic => .panic
+
+theorem get_reply_db (s : Store) (hc : CacheOK s) (r : Bytes) (ks : List Bytes)
+    (hno : ∀ n, lookupTree s.trees r ≠ some (some n)) : (s.get r ks).1 = dbRead s.db r ks := by
+  obtain ⟨a, _⟩ := loadRoot_result s hc r
+  have ht : s.treeAt r = s.loadRoot r := by
+    unfold Store.treeAt
+    split
+    · rename_i n h; exact absurd h (hno n)
+    · rfl
+  unfold Store.get dbRead
+  rw [ht, ← a]
+  generalize s.loadRoot r = lr
+  obtain ⟨res, s'⟩ := lr
+  cases res <;> rfl
+
+/-- the reply of `MemSet` is a function of the configuration and of what the database holds for the parent root. -/
+theorem memSet_reply_frame (H : Bytes → Bytes) (s s' : Store) (hc : CacheOK s) (hc' : CacheOK s')
+    (hcfg : s'.cfg = s.cfg) (p : Bytes) (bh : Nat) (kvs : List (Bytes × Bytes))
+    (hl : loadTree s'.db p = loadTree s.db p) :
+    (memSet H s' p bh kvs).1 = (memSet H s p bh kvs).1 := by
+  unfold memSet
+  split
+  · rfl
+  · obtain ⟨a, _⟩ := loadRoot_result s hc p
+    obtain ⟨a', _⟩ := loadRoot_result s' hc' p
+    obtain ⟨_, fc, _⟩ := loadRoot_frame s p
+    obtain ⟨_, fc', _⟩ := loadRoot_frame s' p
+    rw [hl] at a'
+    generalize s.loadRoot p = lr at a fc ⊢
+    generalize s'.loadRoot p = lr' at a' fc' ⊢
+    obtain ⟨res, t⟩ := lr
+    obtain ⟨res', t'⟩ := lr'
+    simp only at a a' fc fc'
+    rw [a, a']
+    cases loadTree s.db p with
+    | notfound => rfl
+    | panic => rfl
+    | ok tr =>
+      simp only
+      cases Tree.setMany tr kvs with
+      | none => rfl
+      | some x =>
+        cases x with
+        | none => rfl
+        | some n => simp only [fc, fc', hcfg]
+
+theorem loadTree_stable (cfg : Cfg) (db db' : NodeDB) (hsub : Sub db db') (n : Node) (hs : Stored cfg db n)
+    (hf : FitsRec n) (p : Bytes) (hp : n.info.hk = some p) (hd : depth n < loadFuel) :
+    loadTree db' p = loadTree db p := by
+  unfold loadTree
+  rw [load_stable cfg db db' hsub n hs hf loadFuel true p hp hd]
+
 end C04
